@@ -71,6 +71,9 @@ def _fanout_index(w, wl=None):
         return None, u(it.value), it.slice.lower.value
     if isinstance(it, ast.Call) and u(it.func) == "range" and len(it.args) == 2 and isinstance(it.args[0], ast.Constant) and isinstance(recv, ast.Subscript) and u(recv.slice) == u(par.target) and u(it.args[1]) == "len(%s)" % u(recv.value):
         return u(par.target), u(recv.value), it.args[0].value
+    # the writer is picked by the loop variable itself (whatever the indices run over): W[j].write(r) for j in <indices>
+    if isinstance(recv, ast.Subscript) and isinstance(par.target, ast.Name) and u(recv.slice) == par.target.id:
+        return par.target.id, u(recv.value), None
     return None
 
 
@@ -179,7 +182,25 @@ def r2(ctx):
     # writers are created in the order of outputs, one per entry
     io = ctx.func(MOD + ".initialize_io_files")
     comps = [n for n in walk_function(io.node) if isinstance(n, ast.Assign) and u(n.targets[0]) == "output_writers"]
-    ok = len(comps) >= 2 and all(isinstance(c.value, ast.ListComp) and len(c.value.generators) == 1 and u(c.value.generators[0].iter) == util.params_of(io.node)[1] and not c.value.generators[0].ifs for c in comps)
+    outs_p = util.params_of(io.node)[1]
+
+    def one_per_output(c):
+        """output_writers = [f(p) for p in outputs]   or   output_writers = []; for p in outputs: ...; output_writers.append(...)"""
+        v = c.value
+        if isinstance(v, ast.ListComp) and len(v.generators) == 1 and u(v.generators[0].iter) == outs_p and not v.generators[0].ifs:
+            return True
+        if isinstance(v, ast.List) and not v.elts:
+            blk = getattr(c.parent, "body", []) if c in getattr(c.parent, "body", []) else getattr(c.parent, "orelse", [])
+            rest = blk[blk.index(c) + 1 :] if c in blk else []
+            loops_ = [x for x in rest if isinstance(x, ast.For) and u(x.iter) == outs_p and not x.orelse]
+            if len(loops_) != 1 or util.lexical_loop_exits(loops_[0]) or any(isinstance(x, ast.Continue) for x in ast.walk(loops_[0])):
+                return False
+            apps = [x for x in loops_[0].body if isinstance(x, ast.Expr) and isinstance(x.value, ast.Call) and u(x.value.func) == "output_writers.append"]
+            others = [x for x in ast.walk(loops_[0]) if isinstance(x, ast.Call) and isinstance(x.func, ast.Attribute) and u(x.func.value) == "output_writers"]
+            return len(apps) == 1 and len(others) == 1
+        return False
+
+    ok = len(comps) >= 2 and all(one_per_output(c) for c in comps)
     ctx.ob(io.qual, "one-writer-per-output-in-order", ok, io.loc(), "output_writers has one writer per entry of outputs, in order, for BAM and FASTQ" if ok else "output_writers is not a plain comprehension over outputs in both formats")
     # list parsing: H<i> -> i, none -> 0, defaultdict(int)
     pl = ctx.func(MOD + ".process_haplotag_list_file")
